@@ -8,7 +8,7 @@ from hypothesis import strategies as st
 from sklearn.preprocessing import PolynomialFeatures
 
 PROPERTY = "C11"
-RULE = ("config-exhaustive: EVERY (n_features 1..7 quick / 1..9 thorough) x (degree 0..6 quick / 0..8 thorough, degree 0 only "
+RULE = ("config-exhaustive: EVERY (n_features 1..7 quick / 1..9 thorough, plus wide inputs 11-12 / 10-14 columns at degree <= 3 so that two-digit names occur) x (degree 0..6 quick / 0..8 thorough, degree 0 only "
         "with the bias column) x interaction_only x include_bias x kind in {poly, poly-slow}, on a matrix whose rows are distinct "
         "primes so that, by unique factorisation, the value in an output column identifies its monomial exactly; "
         "real-matrices: Hypothesis-drawn configuration and dyadic real matrix (zeros, negatives, int64/float32/float64). "
@@ -20,7 +20,7 @@ ASSUMPTIONS = ["PolynomialFeatures of the installed scikit-learn is the referenc
 TOLERANCES = {"all": "exact (integer-valued / dyadic inputs whose products are exact in the dtype)"}
 
 _ef = loader.module("mlmodel.extended_features")
-PRIMES = [2, 3, 5, 7, 11, 13, 17, 19, 23, 29, 31, 37, 41, 43, 47, 53, 59, 61]
+PRIMES = [2, 3, 5, 7, 11, 13, 17, 19, 23, 29, 31, 37, 41, 43, 47, 53, 59, 61, 67, 71, 73, 79, 83, 89, 97, 101, 103, 107, 109, 113]
 
 
 def _monomial(value, primes):
@@ -89,6 +89,22 @@ def check_config(cfg):
         seen.add(mono)
         parsed = _parse_name(name, n)
         require(parsed == mono, "names:wrong-monomial", "column %d holds %r but is named %r" % (j, mono, name), facts)
+    # custom input names where one name is contained in another ("a" in "ab"): tokens are matched exactly
+    custom = ["a", "ab", "b", "abc", "ba", "x", "xx", "age", "page", "wage", "c1", "c11", "c", "d"][:n]
+    cnames = list(ef.get_feature_names_out(custom))
+    require(len(cnames) == out.shape[1], "names:count:custom", "", facts)
+    for j, name in enumerate(cnames):
+        mono = _monomial(out[0, j], PRIMES[:n])
+        exps = [0] * n
+        ok = True
+        if name.strip() != "1":
+            for tok in name.split():
+                base, _, power = tok.partition("^")
+                if base not in custom:
+                    ok = False
+                    break
+                exps[custom.index(base)] += int(power or 1)
+        require(ok and tuple(exps) == mono, "names:wrong-monomial:custom-names", "column %d holds %r but is named %r (input names %r)" % (j, mono, name, custom), facts)
     labels = [cfg["kind"], "interaction" if cfg["interaction_only"] else "all", "bias" if cfg["include_bias"] else "nobias",
               "degree=%d" % cfg["degree"], "n>=degree" if n >= cfg["degree"] else "n<degree"]
     return Outcome(labels, cfg["degree"] >= 2, key=cfg)
@@ -102,6 +118,13 @@ def _configs(tier):
                 for bias in (False, True):
                     if degree == 0 and not bias:
                         continue
+                    for kind in ("poly", "poly-slow"):
+                        yield dict(n=n, degree=degree, interaction_only=io, include_bias=bias, kind=kind)
+    # wide inputs: default names x10, x11, ... contain x1 as a substring
+    for n in ((11, 12) if tier == "quick" else (10, 11, 12, 13, 14)):
+        for degree in (1, 2, 3):
+            for io in (False, True):
+                for bias in (False, True):
                     for kind in ("poly", "poly-slow"):
                         yield dict(n=n, degree=degree, interaction_only=io, include_bias=bias, kind=kind)
 
